@@ -270,21 +270,34 @@ def R6_amount_accounting(run):
         m = SL.SwapModel(facts, ctx)
         tag = "[exact_in=%d,a_to_b=%d]" % (ei, ab)
         # remaining
+        def chain(t, op, role):
+            """A definition var := ((var op X)? op Y)? ... : the fields X, Y, .. applied, or None unless every link is
+            `checked_<op>(..).ok_or(..)?` (None is an error) and the chain starts at the role variable itself."""
+            out_ = []
+            for _ in range(4):
+                if t[0] != "q":
+                    return None
+                s = strip(t)  # q(ok_or(checked_op(inner, X), Err))
+                if not (s[0] == "call" and s[1].endswith("ok_or") and is_call(s[2][0], op)):
+                    return None
+                cs = strip(s[2][0])
+                out_.append(strip(cs[2][1])[2] if strip(cs[2][1])[0] == "field" else "?")
+                inner = cs[2][0]
+                while inner[0] == "cast":
+                    inner = inner[1]
+                if m.is_var(inner, role):
+                    return out_
+                t = inner
+            return None
         ups = [t for (_, _, t) in m.updates("remaining") if not is_param(t, "amount")]
         subs = []
         good = True
         for t in ups:
-            s = strip(t)  # q(ok_or(checked_sub(var, X), Err))
-            if not (s[0] == "call" and s[1].endswith("ok_or") and is_call(s[2][0], "checked_sub")):
+            c_ = chain(t, "checked_sub", "remaining")
+            if c_ is None:
                 good = False
                 continue
-            cs = strip(s[2][0])
-            if not m.is_var(cs[2][0], "remaining"):
-                good = False
-            subs.append(strip(cs[2][1])[2] if strip(cs[2][1])[0] == "field" else "?")
-            # the wrapper `?` : the definition term is ('q', ...) i.e. error propagates
-            if t[0] != "q":
-                good = False
+            subs.extend(c_)
         want = ["amount_in", "fee_amount"] if ei else ["amount_out"]
         run.check("R6", "remaining" + tag, good and sorted(subs) == sorted(want),
                   "amount_remaining is decreased by %s, expected %s via checked_sub(..).ok_or(..)?" % (subs, want), loc=fn.loc(), detail="remaining -= %s (checked, `?`)" % "+".join(want))
@@ -292,14 +305,11 @@ def R6_amount_accounting(run):
         adds = []
         good = True
         for t in ups:
-            s = strip(t)
-            if not (t[0] == "q" and s[0] == "call" and s[1].endswith("ok_or") and is_call(s[2][0], "checked_add")):
+            c_ = chain(t, "checked_add", "calculated")
+            if c_ is None:
                 good = False
                 continue
-            cs = strip(s[2][0])
-            if not m.is_var(cs[2][0], "calculated"):
-                good = False
-            adds.append(strip(cs[2][1])[2] if strip(cs[2][1])[0] == "field" else "?")
+            adds.extend(c_)
         want = ["amount_out"] if ei else ["amount_in", "fee_amount"]
         run.check("R6", "calculated" + tag, good and sorted(adds) == sorted(want),
                   "amount_calculated is increased by %s, expected %s via checked_add(..).ok_or(..)?" % (adds, want), loc=fn.loc(), detail="calculated += %s (checked, `?`)" % "+".join(want))
